@@ -78,7 +78,7 @@ def corpus_sources(limit_chars=6000):
     return out
 
 
-NAMES = ["x", "y", "total", "items", "print", "len", "f", "obj", "data", "i"]
+NAMES = ["x", "y", "total", "items", "print", "len", "f", "obj", "data", "i", "\u00e9t\u00e9", "\u540d"]
 ATTRS = ["append", "print", "lower", "items", "f", "close", "open"]
 MODULES = ["os", "sys", "math", "os.path", "json", "a.b.c"]
 INTS = ["0", "1", "2", "3", "10", "255", "1000000000000000000000"]
@@ -112,7 +112,7 @@ class Gen:
         if r < 0.82:
             return "None"
         if r < 0.86:
-            return self.pick(["b'a'", "1j", "...", "f'a{x}b'", "f'{x!r:>{y}}'", "u'a'"])
+            return self.pick(["b'a'", "1j", "0j", "...", "f'a{x}b'", "f'{x!r:>{y}}'", "u'a'", "b''", "0.0", "''"])
         if r < 0.93:
             return "[" + ", ".join(self.atom() for _ in range(self.rng.randint(0, 3))) + "]"
         if r < 0.97:
@@ -230,6 +230,7 @@ class Gen:
             for _ in range(self.rng.randint(0, max_stmts)):
                 lines += self.stmt(0, 0, False, False)
             src = "\n".join(lines) + ("\n" if lines else "")
+            src = self.line_ends(src)
             try:
                 ast.parse(src)
                 src.encode("utf-8")
@@ -237,6 +238,19 @@ class Gen:
             except (SyntaxError, ValueError, UnicodeEncodeError):
                 continue
         return "x = 1\n"
+
+    def line_ends(self, src):
+        """CR / CRLF line ends, form feeds and odd separators in comments: line numbers must survive them."""
+        r = self.rng.random()
+        if r < 0.12:
+            src = src.replace("\n", "\r\n")
+        elif r < 0.2:
+            src = src.replace("\n", "\r")
+        elif r < 0.3:
+            src = "\x0c" + src.replace("\n", "\n\x0c", 1)
+        elif r < 0.4:
+            src = "# c\x0b \x85 \u2028 \u2029 \x1c end\n" + src + "# tail without newline"
+        return src
 
 
 # --------------------------------------------------------------------------
@@ -498,9 +512,13 @@ PREVENT = {"op": st.prevent_operation, "call": st.prevent_function_call, "lit": 
 COUNT_FIELD = {"op": "use_count", "call": "call_count", "lit": "use_count", "lty": "use_count", "ast": "use_count"}
 
 
-def load(src):
+def load(src, main_file=None):
     clear_report()
-    contextualize_report(src)
+    if main_file is None:
+        contextualize_report(src)
+    else:
+        from pedal.core.submission import Submission
+        contextualize_report(Submission({main_file: src}, main_file))
 
 
 def _exc(e):
@@ -524,16 +542,27 @@ def real_find(q):
         return _exc(e)
 
 
-def real_check(q, which, threshold):
-    """-> {'fired': bool, 'line': int|None, 'count': int|None} or {'error': cls}"""
+ALIASES = {("op", "ensure"): st.ensure_operator, ("op", "prevent"): st.prevent_operator}
+
+
+def real_check(q, which, threshold, spelling=0):
+    """-> {'fired': bool, 'line': int|None, 'count': int|None} or {'error': cls}
+    spelling: 0 keyword threshold, 1 positional threshold, 2 alias / explicit root where there is one"""
     kind, arg = q
     try:
+        fn = (ENSURE if which == "ensure" else PREVENT)[kind]
+        if spelling == 2:
+            fn = ALIASES.get((kind, which), fn)
         if kind == "imp":
-            fb = (ENSURE if which == "ensure" else PREVENT)[kind](arg)
+            fb = fn(arg)
+        elif spelling == 1:
+            fb = fn(arg, threshold)
+        elif spelling == 2 and kind in ("call", "ast", "op"):
+            fb = fn(arg, root=st.parse_program(), **{("at_least" if which == "ensure" else "at_most"): threshold})
         elif which == "ensure":
-            fb = ENSURE[kind](arg, at_least=threshold)
+            fb = fn(arg, at_least=threshold)
         else:
-            fb = PREVENT[kind](arg, at_most=threshold)
+            fb = fn(arg, at_most=threshold)
         loc = getattr(fb, "location", None)
         line = getattr(loc, "line", None) if loc is not None else None
         return {"fired": bool(fb), "line": line, "count": fb.fields.get(COUNT_FIELD.get(kind, "")), }
